@@ -27,6 +27,7 @@ EXPLANATION = (
   " (STATE-alias / STATE-global) no function of the anchored modules mutates a module- or class-level container, rebinds module / class state or mutates a mutable default argument, so a result never depends on earlier calls;"
   " (LINT-i) no numeric value parsed from the input is defaulted with `or` (a legitimate 0 would be replaced);"
   " (PRI-style, chained) a referenced style is flattened (recursive call) before its properties are copied;"
+  ' (EXC-fallback) in every attribute extractor that reads one raw value, each path on which an error is logged returns what the extractor returns for an absent attribute: a malformed value is ignored, it never turns into another value;'
 )
 RULE_TEXT = "per extraction call site x exception class, per styling step, per element class x flag, per arithmetic use of an Optional time"
 UNDECIDED = ["par/seq/dur resolution and implicit durations as values", "white-space and anonymous-span semantics", "time expression arithmetic per syntax (h/m/s/ms/f/t)"]
@@ -420,4 +421,8 @@ def run(ctx):
   check_timing_arithmetic(ctx)
   lint.falsy_numeric_default(ctx, common.mods(ctx, ["ttconv.imsc.attributes", "ttconv.imsc.utils", "ttconv.imsc.style_properties", "ttconv.utils"]))
   common.check_item_handlers(ctx, ["ttconv.imsc.reader", "ttconv.imsc.elements", "ttconv.imsc.attributes", "ttconv.imsc.utils", "ttconv.imsc.style_properties", "ttconv.utils"])
+  from ..rules import fallback
+  nfb = fallback.check_error_fallbacks(ctx, common.funcs(ctx, ["ttconv.imsc.attributes"]), exempt={
+    "ttconv.imsc.attributes:ExtentAttribute.extract": "non-integer pixel dimensions are reported and then truncated: the value is used, not ignored (lenient by design, one message)"})
+  ctx.floor("EXC-fallback", "attribute extractors with an error path", nfb, 6)
   common.check_history_independence(ctx, ["ttconv.imsc.reader", "ttconv.imsc.elements", "ttconv.imsc.attributes", "ttconv.imsc.utils", "ttconv.imsc.style_properties", "ttconv.imsc.namespaces", "ttconv.utils", "ttconv.model", "ttconv.style_properties"])
